@@ -256,9 +256,62 @@ func fieldPath(v ssa.Value) (root ssa.Value, path []string) {
 		case *ssa.ChangeType:
 			v = x.X
 			continue
+		case *ssa.Alloc:
+			// a local snapshot of a struct (`stored := entry.Metadata.Object`): assigned once, as a whole,
+			// from a load, and never written afterwards — its fields are the fields of what was copied
+			if len(path) > 0 {
+				if src, ok := structSnapshotSource(x); ok {
+					v = src
+					continue
+				}
+			}
+			return v, path
 		}
 		return v, path
 	}
+}
+
+// structSnapshotSource: alloc is a struct-typed local with exactly one store, of a loaded struct value,
+// and no store into any of its fields; returns the address the value was loaded from.
+func structSnapshotSource(a *ssa.Alloc) (ssa.Value, bool) {
+	if _, ok := a.Type().Underlying().(*types.Pointer).Elem().Underlying().(*types.Struct); !ok {
+		return nil, false
+	}
+	refs := a.Referrers()
+	if refs == nil {
+		return nil, false
+	}
+	var src ssa.Value
+	n := 0
+	for _, r := range *refs {
+		switch x := r.(type) {
+		case *ssa.Store:
+			if x.Addr != ssa.Value(a) {
+				return nil, false // the address itself is stored somewhere
+			}
+			n++
+			ld, ok := x.Val.(*ssa.UnOp)
+			if !ok || ld.Op != token.MUL {
+				return nil, false
+			}
+			src = ld.X
+		case *ssa.FieldAddr:
+			if fr := x.Referrers(); fr != nil {
+				for _, r2 := range *fr {
+					if st, ok := r2.(*ssa.Store); ok && st.Addr == ssa.Value(x) {
+						return nil, false // a field is written after the copy
+					}
+				}
+			}
+		case *ssa.UnOp, *ssa.DebugRef:
+		default:
+			return nil, false // escapes (call argument, closure capture, ...)
+		}
+	}
+	if n != 1 || src == nil {
+		return nil, false
+	}
+	return src, true
 }
 
 // ---------- E1: path queries ----------
